@@ -235,6 +235,15 @@ def run_selftest(prop: str, repo_root: str, jobs: int = 16, only: Optional[List[
                     'detail': ('verdict withheld: ' + detail) if status == 'withheld' else detail})
       if status == 'false-alarm':
         failures.append(f'refactor:{rid}(neutral):{status}:{detail[:160]}')
+    # the machinery fails closed where it must (floor unmet / undecided obligation on the reference tree, public anchor renamed)
+    from fjsa.selftest import failclosed
+    try:
+      problems, _ = failclosed.run(prop, repo_root)
+    except Exception as e:  # pylint: disable=broad-except
+      problems = [f'{type(e).__name__}: {e}']
+    whole.append({'id': 'fail-closed', 'kind': 'neutral', 'status': 'silent' if not problems else 'error', 'detail': '; '.join(problems)})
+    for pr in problems:
+      failures.append(f'fail-closed:{pr[:200]}')
     results = results + whole
   return {
       'mutants': len([r for r in results if r['kind'] == 'break']),
